@@ -148,6 +148,19 @@ Example switched_off_and_on_again :
   = [(Some 1, 2); (Some 1, 0); (Some 2, 0); (None, 0); (Some 3, 0); (Some 3, 0); (Some 4, 2); (Some 4, 0); (Some 4, 0); (Some 5, 2)].
 Proof. vm_compute. reflexivity. Qed.
 
+(* the comparison mode itself can be changed in the middle of a history (ctrait.comparison_mode = ...): all the theorems
+   above are about [env_at E st], the environment with the handlers AND the mode current at each operation *)
+Example mode_changed_at_run_time :
+  let E := {| e_eq := fun a b => if (a =? b) || ((a =? 1) && (b =? 2)) || ((a =? 2) && (b =? 1)) then CTrue else CFalse;
+              e_ne := fun a b => if (a =? b) || ((a =? 1) && (b =? 2)) || ((a =? 2) && (b =? 1)) then CFalse else CTrue;
+              e_validate := fun v => Some v; e_default := 9; e_kind := TNormal MIdentity;
+              e_handlers := [mkHandler 1 StaticChanged false; mkHandler 10 Observe false]; e_store_original := false |} in
+  let ops := [DOp (Assign 1); DOp (Assign 1); DOp (Assign 2); DSetMode MEquality; DOp (Assign 1); DSetMode MNone;
+              DOp (Assign 1); DOp (Assign 1)] in
+  map (fun p => length (o_calls (snd p))) (drun E [] (init E) ops) = [2; 0; 2; 0; 0; 0; 2; 2]
+  /\ dlaw_hist E [] 0%Z (init E) (drun E [] (init E) ops) = [].
+Proof. vm_compute. split; reflexivity. Qed.
+
 (* Non-vacuity: on_trait_change handler 10 from the start; observe handler 30 registered after the first change; 31
    (object level) unregisters itself when called; 32 removes 30 when called (30 is still served for that change) and
    registers 33 (not served yet); then 10 is removed explicitly *)
